@@ -42,7 +42,7 @@ rm -rf $WT/_b
 cd $ROOT
 OUT=$(VERIF_REPO=$WT ./check $ID --tier $TIER 2>&1); RC=$?
 echo "$OUT" | grep -E "^VIOLATION|^INCONCLUSIVE|^\[" | cut -c1-200 | head -5
-KEYS=$(echo "$OUT" | grep -oE "key=\S+" | sort -u | head -8 | tr '\n' ' ')
+KEYS=$(echo "$OUT" | grep "^VIOLATION" | grep -oE "key=\S+" | sort -u | head -8 | tr '\n' ' ')
 DST=$ROOT/seeded/${ID}_$N; mkdir -p $DST
 cp $SRC/patch.diff $DST/; cp $SRC/demo.cpp $DST/
 python3 - "$SRC/meta.json" "$DST/meta.json" "$ID" "$RC_CLEAN" "$RC_MUT" "$RC" "$TIER" "$KEYS" "$TESTS_RUN" <<'PY'
